@@ -953,6 +953,15 @@ package desync
 //@   modifies $consumed
 //@   ensures $consumed >= old($consumed) && ($consumed == old($consumed) || $consumed < 1<<40)
 
+//# F39 (open): the null chunk is made with the maximum chunk size an index declares. IndexFromReader relates the
+//# chunk sizes of the table to that maximum but puts no limit on the maximum itself, so the consumers of a parsed index
+//# (NewIndexReadSeeker, AssembleFile's null-chunk seed, the sparse file) allocate - and hash - whatever a 104-byte
+//# index asks for, or panic in makeslice. The allocation below is therefore not bounded for every argument: the
+//# obligation fails and is listed as a known finding (which limit to enforce is a decision for the maintainers)
+//@ func NewNullChunk
+//@   prop C19
+//@   safety C19
+
 //@ ghost var $short bool
 //@ func (d *FormatDecoder) Next
 //@   prop C19 C04 C05
